@@ -294,3 +294,120 @@ def registry_history(concepts, case, rng, queries):
     for c in (b, a2, b2, b):
         if c is not RAISED:
             queries(c)
+
+
+# ---------------------------------------------------------------------------
+# interference sessions: a short random walk over the WHOLE public API of a context and its
+# lattice.  The property being checked judges its own calls; all the others are there to disturb
+# shared state (memo tables, caches, class-level closures) between those calls.
+
+class StrLabel(str):
+    """A str subclass instance: equal to and hashing like the plain label."""
+
+
+def argform(labels, rng, iterable_ok=True):
+    """One of many equivalent representations of a collection of labels."""
+    labels = list(labels)
+    k = rng.randrange(10 if iterable_ok else 8)
+    if k == 0:
+        return tuple(labels)
+    if k == 1:
+        return list(reversed(labels))
+    if k == 2:
+        return set(labels)
+    if k == 3:
+        return frozenset(labels)
+    if k == 4:
+        return dict.fromkeys(labels)
+    if k == 5:
+        return dict.fromkeys(labels).keys()
+    if k == 6:      # equal but distinct str objects
+        return [(x + '\0')[:-1] if len(x) > 1 else x for x in labels]
+    if k == 7:
+        return [StrLabel(x) for x in labels] + labels[:1]
+    if k == 8:
+        return (x for x in list(labels))
+    return iter(labels + labels[-1:])
+
+
+def interference(concepts, ctx, lat, rng, steps=20):
+    """Random calls over the public API (results ignored here: the attached monitors judge the ones
+    they own).  Never raises."""
+    objs, props = list(ctx.objects), list(ctx.properties)
+    members = None
+    for _ in range(steps):
+        try:
+            if members is None and lat is not None and lat is not RAISED:
+                members = list(lat)
+            sub_o = rng.sample(objs, rng.randint(0, min(len(objs), 4)))
+            sub_p = rng.sample(props, rng.randint(0, min(len(props), 4)))
+            k = rng.randrange(24 if members else 9)
+            if k == 0:
+                ctx.intension(argform(sub_o, rng))
+            elif k == 1:
+                ctx.extension(argform(sub_p, rng))
+            elif k == 2 and sub_o:
+                ctx[argform(sub_o, rng, iterable_ok=False)]
+            elif k == 3 and sub_p:
+                ctx[argform(sub_p, rng, iterable_ok=False)]
+            elif k == 4:
+                ctx.neighbors(argform(sub_o, rng))
+            elif k == 5:
+                str(ctx.relations(include_unary=rng.random() < .5))
+            elif k == 6:
+                ctx.todict(ignore_lattice=rng.choice([None, True, False]))
+            elif k == 7:
+                ctx.tostring(rng.choice(['table', 'cxt', 'csv'])), ctx.crc32(), ctx.shape, ctx.fill_ratio
+            elif k == 8:
+                ctx.definition(), ctx == ctx.copy()
+            elif k == 9:
+                lat(argform(sub_p, rng))
+            elif k == 10 and (sub_o or sub_p):
+                lat[tuple(sub_o or sub_p)]
+            elif k == 11:
+                lat[rng.randrange(len(members))], lat[-1], lat[:2], len(lat)
+            elif k == 12:
+                a, b = rng.choice(members), rng.choice(members)
+                a | b, a & b, a.join(b), b.meet(a)
+            elif k == 13:
+                ms = [rng.choice(members) for _ in range(rng.randint(0, 4))]
+                lat.join(ms), lat.meet(tuple(ms))
+            elif k == 14:
+                a, b = rng.choice(members), rng.choice(members)
+                a <= b, a < b, a >= b, a > b, a.incompatible_with(b), a.complement_of(b), \
+                    a.subcontrary_with(b), a.orthogonal_to(b)
+            elif k == 15:
+                c = rng.choice(members)
+                list(c.upset()), list(c.downset())
+            elif k == 16:
+                ms = [rng.choice(members) for _ in range(rng.randint(0, 4))]
+                list(lat.upset_union(ms)), list(lat.downset_union(set(ms)))
+            elif k == 17:
+                c = rng.choice(members)
+                if len(c.intent) <= 10:
+                    list(c.attributes())
+                c.minimal()
+            elif k == 18:
+                c = rng.choice(members)
+                str(c), repr(c), c.index, c.dindex, c.objects, c.properties, c.atoms, tuple(c)
+            elif k == 19 and len(members) <= 150:
+                str(lat), repr(lat), lat.atoms, lat.infimum, lat.supremum
+            elif k == 20 and len(members) <= 200:
+                lat.graphviz()
+            elif k == 21 and len(members) <= 200:
+                import pickle
+                pickle.loads(pickle.dumps((ctx, lat), protocol=rng.choice([2, 4, 5])))
+            elif k == 22:
+                it = iter(lat)
+                next(it, None)
+                list(lat)
+            elif k == 23:
+                concepts.algorithms.get_concepts(ctx)
+                next(concepts.algorithms.fcbo_dual(ctx), None)
+        except core.CaseTimeout:
+            raise
+        except core.CaseTooLarge:
+            pass
+        except Exception:
+            COL.counters['interference_calls_raised'] += 1
+    COL.counters['interference_calls'] += steps
